@@ -882,8 +882,72 @@ def r10_6(prog: Program, chk: Check) -> None:
     chk.analysed["memo_caches"] = n
 
 
+
+# ------------------------------------------------------------------- R10.7
+_MUTABLE_FACTORIES = ("dict", "list", "set", "defaultdict", "collections.defaultdict", "OrderedDict", "collections.OrderedDict", "deque", "collections.deque")
+
+
+def _shared_on_replace(prog: Program, cname: str) -> List[str]:
+    """init=True fields of a dataclass (own and inherited) whose default is a fresh mutable container:
+    dataclasses.replace() passes the *same* container to the copy."""
+    out = []
+    for f in prog.all_fields(cname):
+        d = f.default
+        if f.is_classvar or f.init is False or not (isinstance(d, ast.Call) and norm(d.func) in ("field", "dataclasses.field")):
+            continue
+        fac = next((k.value for k in d.keywords if k.arg == "default_factory"), None)
+        if fac is None:
+            continue
+        text = norm(fac)
+        if text in _MUTABLE_FACTORIES or (isinstance(fac, ast.Lambda) and isinstance(fac.body, (ast.Dict, ast.List, ast.Set, ast.Call)) and (not isinstance(fac.body, ast.Call) or norm(fac.body.func) in _MUTABLE_FACTORIES)):
+            out.append(f.name)
+    return out
+
+
+def copies_share_no_state(prog: Program, chk: Check, rule: str) -> None:
+    chk.rule(
+        rule,
+        "a copy made with dataclasses.replace() shares no mutable state with the original: replace() hands every init field of the original to the copy, so a field whose default "
+        "is a fresh dict / list / set (a memo, a collector) becomes one container for both objects - what the per-module view of an Options object or a specialised signature "
+        "remembers would leak into every other copy and make a file's diagnostics depend on what was checked before it. For every replace(obj, ...) call the classes obj can be "
+        "(the enclosing class and its subclasses for `self`; otherwise the dataclasses that have all the named fields - reported when every one of them has such a field) have no "
+        "such field, unless the call passes it",
+        floor=8,
+    )
+    n = 0
+    for m, q, fn in prog.iter_functions():
+        for call in walk_no_nested(fn):
+            if not (isinstance(call, ast.Call) and norm(call.func) in ("replace", "dataclasses.replace") and call.args):
+                continue
+            kws = [k.arg for k in call.keywords if k.arg]
+            recv = call.args[0]
+            if isinstance(recv, ast.Name) and recv.id == "self" and "." in q and q.split(".")[0] in prog.classes:
+                cands = [c for c in prog.subclasses(q.split(".")[0]) if prog.classes[c].is_dataclass]
+            else:
+                cands = [c for c, ci in prog.classes.items() if ci.is_dataclass and kws and all(any(f.name == k and f.init is not False for f in prog.all_fields(c)) for k in kws)]
+            if not cands:
+                continue
+            n += 1
+            shared = {c: [f for f in _shared_on_replace(prog, c) if f not in kws] for c in cands}
+            bad = {c: fs for c, fs in shared.items() if fs}
+            if len(bad) < len(cands) and not (isinstance(recv, ast.Name) and recv.id == "self"):
+                bad = {}  # the receiver's class is not known: it may be one of the candidates without such a field
+            chk.ob(
+                rule,
+                f"{m}::{q}::replace({norm(recv)[:30]}, {', '.join(kws)})",
+                not bad,
+                prog.site(m, call),
+                f"`{norm(call)[:70]}` copies {sorted(bad)} whose field(s) {sorted({f for fs in bad.values() for f in fs})} hold a mutable container created per object: the copy and the original share it",
+            )
+    chk.analysed["replace_calls"] = n
+
+
+def r10_7(prog: Program, chk: Check) -> None:
+    copies_share_no_state(prog, chk, "R10.7")
+
 def run(prog: Program, chk: Check) -> None:  # noqa: F811
     guard(chk, _run_123, prog, chk)
     guard(chk, r10_4, prog, chk)
     guard(chk, r10_5, prog, chk)
     guard(chk, r10_6, prog, chk)
+    guard(chk, r10_7, prog, chk)
